@@ -28,6 +28,17 @@ def run_model(tier, seed, coverage=False):
                     "INVARIANT Emit\n" % fam)
         r = run_tlc("MC_FeatureAlgebra", os.path.join(d, "fa.cfg"), workers=16, specdir=d, timeout=3000, heap="12g",
                     extra=["-continue"])
+        if "<assumption>" in r.violated:
+            # the live tables contradict the dimension algebra: report it, and still explore every
+            # configuration with the tables as they are
+            mp = os.path.join(d, "MC_FeatureAlgebra.tla")
+            txt = open(mp).read().replace("ASSUME DeclaredMatchesDerived", "")
+            with open(mp, "w") as fh:
+                fh.write(txt)
+            r2 = run_tlc("MC_FeatureAlgebra", os.path.join(d, "fa.cfg"), workers=16, specdir=d, timeout=3000, heap="12g",
+                         extra=["-continue"])
+            r2.violated = ["<assumption>"] + r2.violated
+            r = r2
     finally:
         shutil.rmtree(d, ignore_errors=True)
     if r.error and not r.violated:
